@@ -13,6 +13,9 @@ UT = 'src/util/mod.rs'
 UW = 'src/util/weights.rs'
 MM = 'src/model/mod.rs'
 MB = 'src/model/model_basis_function.rs'
+BM = 'src/model/builder/mod.rs'
+FB = 'src/model/builder/modelfunction_builder/mod.rs'
+MD = 'src/model/detail.rs'
 
 # (name, file, old, new, count or None(all occurrences), expected-to-alarm)
 M = [
@@ -90,6 +93,20 @@ M = [
         let current_svd = Phi_w.as_ref().map(|Phi_w| Phi_w.clone().svd(true, true));
         let svd_epsilon = self.svd_epsilon;''', 1, []),
  ('harmless_debug_assert', LB, '        let params = model.params();\n', '        let params = model.params();\n        debug_assert!(Y_w.nrows() == x_len);\n', 1, []),
+ # model builder (C15, C16 iii)
+ ('mb_pd_normal_ok', BM, "Self::from(Err(ModelBuildError::IllegalCallToPartialDeriv))", "Self::from(_model)", 1, ['C15']),
+ ('mb_init_no_len_check', BM, "if expected != initial_parameters.len() {", "if expected != initial_parameters.len() && false {", 1, ['C15']),
+ ('mb_tryinto_skip_unused', BM, ".any(|function| function.derivatives.contains_key(&param_index))", ".any(|function| function.derivatives.contains_key(&param_index) || true)", 1, ['C15']),
+ ('fb_dup_deriv_ok', FB, ".insert(deriv_index_in_model, deriv)\n                            .is_some()", ".insert(deriv_index_in_model, deriv)\n                            .is_none()", 1, ['C15']),
+ ('fb_missing_deriv_ok', FB, "if !modelfunction.derivatives.contains_key(index) {", "if !modelfunction.derivatives.contains_key(index) && false {", 1, ['C15']),
+ ('cw_skip_count_check', MD, "    check_parameter_count(function_parameters, &function)?;\n", "", 1, ['C15']),
+ ('cw_wrong_param', MD, "parameters_for_function.push(params[*param_idx].clone());", "parameters_for_function.push(params[index_mapping[0]].clone());", 1, ['C16']),
+ ('cim_rposition', MD, ".position(|value_full| value_full == value_subset)", ".rposition(|value_full| value_full == value_subset)", 1, ['UND']),
+ ('cim_always_first', MD, ".position(|value_full| value_full == value_subset)", ".position(|value_full| value_full == value_subset || true)", 1, ['C16']),
+ ('mb_function_front', BM, "    model.basefunctions.push(function);\n    Ok(model)", "    model.basefunctions.insert(0, function);\n    Ok(model)", 1, ['C16']),
+ ('mb_x_not_stored', BM, "model.x_vector = Some(x);", "let _ = x;", 1, ['C15']),
+ ('harmless_mb_swap_checks', MD, "    check_parameter_names(model_parameters)?;\n    check_parameter_names(function_parameters)?;", "    check_parameter_names(function_parameters)?;\n    check_parameter_names(model_parameters)?;", 1, []),
+ ('harmless_mb_rename_local', BM, "let expected = model.parameter_names.len();\n                if expected != initial_parameters.len() {\n                    Self::from(Err(ModelBuildError::IncorrectParameterCount {\n                        expected,", "let n_expected = model.parameter_names.len();\n                if n_expected != initial_parameters.len() {\n                    Self::from(Err(ModelBuildError::IncorrectParameterCount {\n                        expected: n_expected,", 1, []),
 ]
 
 
